@@ -40,6 +40,11 @@ type j2kCase struct {
 	NatRatio float64 `json:"natratio,omitempty"`
 	Class    string  `json:"class"`
 	CSeed    uint64  `json:"cseed"`
+	// C12 hist: an unrelated irreversible encode (8x8, this precision / levels / quality) is made
+	// right before the judged one
+	PreP       int `json:"prep,omitempty"`
+	PreLevels  int `json:"prelevels,omitempty"`
+	PreQuality int `json:"prequality,omitempty"`
 }
 
 func (c *j2kCase) params(lossless bool) *jpeg2000.EncodeParams {
